@@ -712,3 +712,44 @@ B('j17_neg_accept_ignored', ['C17'], 'R17.k', (RS, _SR_A, ""))
 B('j17_neg_lookup_by_other_parameter', ['C17'], 'R17.k', (RS, _SR_F, "        resp_mime = self._format_mime_map.get(request.args.get('callback'))\n"))
 B('j17_neg_raw_mime_parameter', ['C17'], 'R17.k', (RS, _SR_F, "        resp_mime = self._format_mime_map.get(req_format) or request.args.get('mime')\n"))
 B('j17_neg_accept_of_other_header', ['C17'], 'R17.k', (RS, _SR_A, "        if not resp_mime and request.accept_languages:\n            resp_mime = request.accept_languages.best_match(self.mimetypes)\n"))
+
+# R17.l: every JSON body is the renderer's own encoder applied to the endpoint result; JSONP is callback( JSON )
+_JR_STREAM = "            json_iter = self.json_encoder.iterencode(context)\n"
+_JR_WHOLE = "            json_iter = [self.json_encoder.encode(context)]\n"
+_JP_JSON = "        json_iter = self.json_encoder.iterencode(context)\n"
+_JP_CHAIN = "        resp_iter = itertools.chain([cb_name, '('], json_iter, [');'])\n"
+T('j17_body_encoder_alias', ['C17'],
+  (RS, "    def __call__(self, context):\n        if self.streaming:\n" + _JR_STREAM + "        else:\n" + _JR_WHOLE,
+       "    def __call__(self, context):\n        encoder = self.json_encoder\n        if self.streaming:\n            json_iter = encoder.iterencode(context)\n"
+       "        else:\n            json_iter = [encoder.encode(context)]\n"),
+  (RS, _JP_CHAIN, "        resp_iter = itertools.chain((cb_name, '('), json_iter, (');',))\n"))
+T('j17_body_bare_encode', ['C17'], (RS, _JR_WHOLE, "            json_iter = self.json_encoder.encode(context)\n"))
+T('j17_jsonp_concatenated_prefix', ['C17'], (RS, _JP_CHAIN, "        resp_iter = itertools.chain([cb_name + '('], json_iter, [')'])\n"))
+T('j17_jsonp_list_concatenation', ['C17'], (RS, _JP_CHAIN, "        resp_iter = [cb_name, '('] + list(json_iter) + [');']\n"))
+B('j17_body_dumps', ['C17'], 'R17.l', (RS, 'import itertools\n', 'import itertools\nimport json\n'),
+  (RS, _JR_WHOLE, "            json_iter = [json.dumps(context, indent=2, sort_keys=True)]\n"))
+B('j17_body_stream_other_encoder', ['C17'], 'R17.l', (RS, _JR_STREAM, "            json_iter = JSONEncoder(indent=2).iterencode(context)\n"))
+B('j17_body_str_of_context', ['C17'], 'R17.l', (RS, _JR_WHOLE, "            json_iter = [self.json_encoder.encode(str(context))]\n"))
+B('j17_body_empty_becomes_null', ['C17'], 'R17.l',
+  (RS, "    def __call__(self, context):\n        if self.streaming:", "    def __call__(self, context):\n        if not context:\n            context = None\n        if self.streaming:"))
+B('j17_body_list_of_stream', ['C17'], 'R17.l', (RS, _JR_WHOLE, "            json_iter = [self.json_encoder.iterencode(context)]\n"))
+B('j17_jsonp_no_paren', ['C17'], 'R17.l', (RS, _JP_CHAIN, "        resp_iter = itertools.chain([cb_name], json_iter, [');'])\n"))
+B('j17_jsonp_paren_before_callback', ['C17'], 'R17.l', (RS, _JP_CHAIN, "        resp_iter = itertools.chain(['(', cb_name], json_iter, [');'])\n"))
+B('j17_jsonp_unterminated', ['C17'], 'R17.l', (RS, _JP_CHAIN, "        resp_iter = itertools.chain([cb_name, '('], json_iter, [';'])\n"))
+B('j17_jsonp_repr_body', ['C17'], 'R17.l', (RS, _JP_JSON, "        json_iter = [repr(context)]\n"))
+B('j17_jsonp_json_twice', ['C17'], 'R17.l', (RS, _JP_CHAIN, "        resp_iter = itertools.chain([cb_name, '('], json_iter, [','], self.json_encoder.iterencode(context), [');'])\n"))
+B('j17_jsonp_without_callback', ['C17'], 'R17.l', (RS, "        if not cb_name:\n            return super(JSONPRender, self).__call__(context)\n", "        if cb_name == 'none':\n            return super(JSONPRender, self).__call__(context)\n"))
+B('j17_jsonp_other_parameter', ['C17'], 'R17.l', (RS, "        cb_name = request.args.get(self.qp_name, None)\n", "        cb_name = request.args.get('jsonp', None) or 'callback'\n"))
+B('j17_jsonp_plain_gets_request', ['C17'], 'R17.l', (RS, "return super(JSONPRender, self).__call__(context)", "return super(JSONPRender, self).__call__(request)"))
+# the dispatch hands on the endpoint result itself; every entry point returns a response on every path
+T('j17_dispatch_keyword_context', ['C17'], (RS, "            return self.json_render(context)\n", "            render = self.json_render\n            return render(context=context)\n"))
+B('j17_dispatch_list_of_context', ['C17'], 'R17.l', (RS, "            return self.json_render(context)\n", "            return self.json_render(list(context))\n"))
+B('j17_dispatch_context_rebound', ['C17'], 'R17.l', (RS, _SR_QP, _SR_QP + "        if isinstance(context, tuple):\n            context = {'items': context}\n"))
+B('j17_dispatch_tabular_gets_str', ['C17'], 'R17.l', (RS, "            return self.tabular_render(context, _route)\n", "            return self.tabular_render(str(context), _route)\n"))
+B('j17_jsonp_falls_off', ['C17'], 'R17.i',
+  (RS, "        if not cb_name:\n            return super(JSONPRender, self).__call__(context)\n", "        if not cb_name:\n            super(JSONPRender, self).__call__(context)\n            return\n"))
+B('j17_json_render_no_return', ['C17'], 'R17.i',
+  (RS, "        resp.mimetype_params['charset'] = self.encoding\n        return resp\n\n\nclass JSONPRender",
+       "        resp.mimetype_params['charset'] = self.encoding\n        if resp.mimetype_params:\n            return resp\n\n\nclass JSONPRender"))
+B('j17_tabular_returns_none_for_empty', ['C17'], 'R17.i',
+  (TB, "        content_parts = [self._html_wrapper]\n", "        if not context:\n            return None\n        content_parts = [self._html_wrapper]\n"))
